@@ -105,6 +105,8 @@ def gurobi(f):
         m.Params.DualReductions = 0
         m.Params.TimeLimit = 30
         m.Params.Threads = 1
+        if getattr(f, 'qmat', None):
+            m.Params.BarQCPConvTol = 1e-10     # the default stops barrier 1e-4 early on some QCPs
         m.optimize()
         st = m.Status
         if st == gp.GRB.OPTIMAL:
